@@ -386,8 +386,11 @@ where
         self.dim
     }
 
-    /// Unused for Euler, call is a no-op
-    fn with_tolerance(self, _tol: Self::RealField) -> Result<Self, Self::Error> {
+    /// Unused for Euler, but a non-positive tolerance is rejected as it is by every other solver
+    fn with_tolerance(self, tol: Self::RealField) -> Result<Self, Self::Error> {
+        if tol <= <Self::RealField as Zero>::zero() {
+            return Err(IVPError::ToleranceOOB);
+        }
         Ok(self)
     }
 
